@@ -14,10 +14,6 @@ From AL Require Import Base BaseFacts EventFacts.
 From AL.Sched Require Import EvOwn.
 From AL.Sched Require BarrierEvSched BarrierEvInv MutexEvSched MutexEvInv RwComp3.
 From Coq Require Import Lia.
-Module B := BarrierEvSched.
-Module BI := BarrierEvInv.
-Module M := MutexEvSched.
-Module MI := MutexEvInv.
 Import RwComp3(M_guards_mono, M_guards_release, cntb_zero_M).
 Open Scope N_scope.
 Open Scope list_scope.
@@ -26,38 +22,38 @@ Inductive yact :=
 | YMPoll (i : nat) | YMStep (i : nat) (clock : bool) | YMCancel (i : nat) | YMPend | YRelease
 | YBPoll (i : nat) | YBStep (i : nat) | YBCancel (i : nat).
 
-Record yst := mkY { yB : B.gst; yM : M.gst; tB : list B.act; tM : list M.act; y_owe : N; y_hold : N }.
+Record yst := mkY { yB : BarrierEvSched.gst; yM : MutexEvSched.gst; tB : list BarrierEvSched.act; tM : list MutexEvSched.act; y_owe : N; y_hold : N }.
 
-Definition critpc (f : B.fut) : bool := match B.fpc f with B.BArrive | B.BReacq => true | _ => false end.
-Definition crit (s : yst) (i : nat) : bool := match B.getf (yB s) i with Some f => critpc f | None => false end.
+Definition critpc (f : BarrierEvSched.fut) : bool := match BarrierEvSched.fpc f with BarrierEvSched.BArrive | BarrierEvSched.BReacq => true | _ => false end.
+Definition crit (s : yst) (i : nat) : bool := match BarrierEvSched.getf (yB s) i with Some f => critpc f | None => false end.
 
-Record ytr := mkT { aB : list B.act; aM : list M.act; n_owe : N; n_hold : N }.
-Definition m_own (s : yst) (a : M.act) : ytr :=
-  mkT [] [a] (y_owe s) (y_hold s + (M.g_guards (M.step true (yM s) a) - M.g_guards (yM s))).
+Record ytr := mkT { aB : list BarrierEvSched.act; aM : list MutexEvSched.act; n_owe : N; n_hold : N }.
+Definition m_own (s : yst) (a : MutexEvSched.act) : ytr :=
+  mkT [] [a] (y_owe s) (y_hold s + (MutexEvSched.g_guards (MutexEvSched.step true (yM s) a) - MutexEvSched.g_guards (yM s))).
 Definition tr (s : yst) (a : yact) : ytr :=
   match a with
-  | YMPoll i => m_own s (M.APoll i)
-  | YMStep i c => m_own s (M.AStep i c)
-  | YMCancel i => m_own s (M.ACancel i)
-  | YMPend => m_own s M.APend
-  | YRelease => if 0 <? y_owe s then mkT [] [M.ARelease] (y_owe s - 1) (y_hold s) else mkT [] [] (y_owe s) (y_hold s)
-  | YBPoll i => mkT [B.APoll i] [] (y_owe s) (y_hold s)
+  | YMPoll i => m_own s (MutexEvSched.APoll i)
+  | YMStep i c => m_own s (MutexEvSched.AStep i c)
+  | YMCancel i => m_own s (MutexEvSched.ACancel i)
+  | YMPend => m_own s MutexEvSched.APend
+  | YRelease => if 0 <? y_owe s then mkT [] [MutexEvSched.ARelease] (y_owe s - 1) (y_hold s) else mkT [] [] (y_owe s) (y_hold s)
+  | YBPoll i => mkT [BarrierEvSched.APoll i] [] (y_owe s) (y_hold s)
   | YBStep i =>
-      if crit s i then (if 0 <? y_hold s then mkT [B.AStep i] [] (y_owe s + 1) (y_hold s - 1) else mkT [] [] (y_owe s) (y_hold s))
-      else mkT [B.AStep i] [] (y_owe s) (y_hold s)
-  | YBCancel i => mkT [B.ACancel i] [] (y_owe s) (y_hold s)
+      if crit s i then (if 0 <? y_hold s then mkT [BarrierEvSched.AStep i] [] (y_owe s + 1) (y_hold s - 1) else mkT [] [] (y_owe s) (y_hold s))
+      else mkT [BarrierEvSched.AStep i] [] (y_owe s) (y_hold s)
+  | YBCancel i => mkT [BarrierEvSched.ACancel i] [] (y_owe s) (y_hold s)
   end.
 Definition ystep (s : yst) (a : yact) : yst :=
   let t := tr s a in
-  mkY (fold_left (B.step true) (aB t) (yB s)) (fold_left (M.step true) (aM t) (yM s)) (tB s ++ aB t) (tM s ++ aM t) (n_owe t) (n_hold t).
-Definition y0 (p : N) (nb nm : nat) : yst := mkY (B.g0 p nb) (M.g0 nm) [] [] 0 0.
+  mkY (fold_left (BarrierEvSched.step true) (aB t) (yB s)) (fold_left (MutexEvSched.step true) (aM t) (yM s)) (tB s ++ aB t) (tM s ++ aM t) (n_owe t) (n_hold t).
+Definition y0 (p : N) (nb nm : nat) : yst := mkY (BarrierEvSched.g0 p nb) (MutexEvSched.g0 nm) [] [] 0 0.
 Definition yrun (p : N) (nb nm : nat) (sched : list yact) : yst := fold_left ystep sched (y0 p nb nm).
 
 Record Inv (p : N) (nb nm : nat) (k : nat) (s : yst) : Prop := mkInv {
-  iv_B : yB s = B.run true p nb (tB s);
-  iv_M : yM s = M.run true nm (tM s);
+  iv_B : yB s = BarrierEvSched.run true p nb (tB s);
+  iv_M : yM s = MutexEvSched.run true nm (tM s);
   iv_len : (length (tB s) <= k)%nat;
-  iv_guards : M.g_guards (yM s) = y_hold s + y_owe s }.
+  iv_guards : MutexEvSched.g_guards (yM s) = y_hold s + y_owe s }.
 
 Lemma tr_lenB s a : (length (aB (tr s a)) <= 1)%nat.
 Proof. destruct a; cbn [tr m_own aB length]; try lia; try (destruct (0 <? y_owe s); cbn; lia). destruct (crit s i); [destruct (0 <? y_hold s)|]; cbn; lia. Qed.
@@ -65,16 +61,16 @@ Proof. destruct a; cbn [tr m_own aB length]; try lia; try (destruct (0 <? y_owe 
 Lemma ystep_Inv p nb nm k s a : Inv p nb nm k s -> Inv p nb nm (S k) (ystep s a).
 Proof.
   intros [HB HM HL HG]. constructor; unfold ystep; cbn [yB yM tB tM y_owe y_hold].
-  - unfold B.run in *. rewrite fold_left_app, <- HB. reflexivity.
-  - unfold M.run in *. rewrite fold_left_app, <- HM. reflexivity.
+  - unfold BarrierEvSched.run in *. rewrite fold_left_app, <- HB. reflexivity.
+  - unfold MutexEvSched.run in *. rewrite fold_left_app, <- HM. reflexivity.
   - rewrite app_length. pose proof (tr_lenB s a). lia.
   - destruct a; cbn [tr m_own aM aB n_owe n_hold fold_left].
-    + pose proof (M_guards_mono (yM s) (M.APoll i) eq_refl). lia.
-    + pose proof (M_guards_mono (yM s) (M.AStep i clock) eq_refl). lia.
-    + pose proof (M_guards_mono (yM s) (M.ACancel i) eq_refl). lia.
-    + pose proof (M_guards_mono (yM s) M.APend eq_refl). lia.
+    + pose proof (M_guards_mono (yM s) (MutexEvSched.APoll i) eq_refl). lia.
+    + pose proof (M_guards_mono (yM s) (MutexEvSched.AStep i clock) eq_refl). lia.
+    + pose proof (M_guards_mono (yM s) (MutexEvSched.ACancel i) eq_refl). lia.
+    + pose proof (M_guards_mono (yM s) MutexEvSched.APend eq_refl). lia.
     + destruct (0 <? y_owe s) eqn:E; cbn [aM n_owe n_hold fold_left]; [|exact HG]. apply N.ltb_lt in E.
-      rewrite M_guards_release. assert (Gp : 0 <? M.g_guards (yM s) = true) by (apply N.ltb_lt; lia). rewrite Gp. lia.
+      rewrite M_guards_release. assert (Gp : 0 <? MutexEvSched.g_guards (yM s) = true) by (apply N.ltb_lt; lia). rewrite Gp. lia.
     + exact HG.
     + destruct (crit s i); [destruct (0 <? y_hold s) eqn:E|]; cbn [aM n_owe n_hold fold_left]; try exact HG. apply N.ltb_lt in E. lia.
     + exact HG.
@@ -91,29 +87,29 @@ Qed.
 
 (* a wait() future is at rest in the composed system: at rest in the barrier's machine, or waiting for the state mutex
    with a lock future parked on it (its poll returned Pending from lock().await) *)
-Definition comp_at_rest (s : yst) (f : B.fut) : Prop :=
-  B.at_rest f = true \/ (critpc f = true /\ existsb M.parked (M.g_futs (yM s)) = true).
+Definition comp_at_rest (s : yst) (f : BarrierEvSched.fut) : Prop :=
+  BarrierEvSched.at_rest f = true \/ (critpc f = true /\ existsb MutexEvSched.parked (MutexEvSched.g_futs (yM s)) = true).
 
 Theorem barrier_comp_no_lost_wakeup p nb nm sched : let s := yrun p nb nm sched in
-  N.of_nat (length sched) <= B.NMAX ->
-  y_hold s = 0 -> y_owe s = 0 -> M.quiescentb (yM s) = true ->
-  (forall f, In f (B.g_futs (yB s)) -> comp_at_rest s f) ->
-  existsb M.parked (M.g_futs (yM s)) = false /\ B.quiescentb (yB s) = true /\ existsb (B.stale (yB s)) (B.g_futs (yB s)) = false.
+  N.of_nat (length sched) <= BarrierEvSched.NMAX ->
+  y_hold s = 0 -> y_owe s = 0 -> MutexEvSched.quiescentb (yM s) = true ->
+  (forall f, In f (BarrierEvSched.g_futs (yB s)) -> comp_at_rest s f) ->
+  existsb MutexEvSched.parked (MutexEvSched.g_futs (yM s)) = false /\ BarrierEvSched.quiescentb (yB s) = true /\ existsb (BarrierEvSched.stale (yB s)) (BarrierEvSched.g_futs (yB s)) = false.
 Proof.
   intros s LB Zh Zo QM AR. destruct (yrun_Inv p nb nm sched) as [HB HM HL HG]. fold s in HB, HM, HL, HG.
-  assert (G0 : M.g_guards (yM s) = 0) by (rewrite HG, Zh, Zo; reflexivity).
-  pose proof (MI.run_inv (tM s) nm) as (_ & (Wi & _) & _). rewrite <- HM in Wi.
-  assert (H0 : MI.cntb MI.holdpc (M.g_futs (yM s)) = 0).
-  { apply cntb_zero_M. intros f Hf. pose proof QM as QM'. unfold M.quiescentb in QM'. apply Bool.andb_true_iff in QM'. destruct QM' as (QF & _).
-    rewrite forallb_forall in QF. specialize (QF f Hf). unfold M.at_rest in QF. rewrite MI.holdpc_eq. destruct (M.fpc f); try reflexivity; discriminate. }
-  assert (Ev : M.g_w (yM s) mod 2 = 0) by (rewrite Wi, G0, H0; rewrite N.add_0_r, N.mul_comm; apply N.mod_mul; discriminate).
-  assert (NP : existsb M.parked (M.g_futs (yM s)) = false).
-  { pose proof (MI.mutex_sched_no_lost_wakeup (tM s) nm) as LM. rewrite <- HM in LM. unfold M.lostb in LM. rewrite Ev, QM in LM. cbn in LM. exact LM. }
-  assert (QB : B.quiescentb (yB s) = true).
-  { unfold B.quiescentb. apply forallb_forall. intros f Hf. destruct (AR f Hf) as [R|(_ & P)]; [exact R | congruence]. }
+  assert (G0 : MutexEvSched.g_guards (yM s) = 0) by (rewrite HG, Zh, Zo; reflexivity).
+  pose proof (MutexEvInv.run_inv (tM s) nm) as (_ & (Wi & _) & _). rewrite <- HM in Wi.
+  assert (H0 : MutexEvInv.cntb MutexEvInv.holdpc (MutexEvSched.g_futs (yM s)) = 0).
+  { apply cntb_zero_M. intros f Hf. pose proof QM as QM'. unfold MutexEvSched.quiescentb in QM'. apply Bool.andb_true_iff in QM'. destruct QM' as (QF & _).
+    rewrite forallb_forall in QF. specialize (QF f Hf). unfold MutexEvSched.at_rest in QF. rewrite MutexEvInv.holdpc_eq. destruct (MutexEvSched.fpc f); try reflexivity; discriminate. }
+  assert (Ev : MutexEvSched.g_w (yM s) mod 2 = 0) by (rewrite Wi, G0, H0; rewrite N.add_0_r, N.mul_comm; apply N.mod_mul; discriminate).
+  assert (NP : existsb MutexEvSched.parked (MutexEvSched.g_futs (yM s)) = false).
+  { pose proof (MutexEvInv.mutex_sched_no_lost_wakeup (tM s) nm) as LM. rewrite <- HM in LM. unfold MutexEvSched.lostb in LM. rewrite Ev, QM in LM. cbn in LM. exact LM. }
+  assert (QB : BarrierEvSched.quiescentb (yB s) = true).
+  { unfold BarrierEvSched.quiescentb. apply forallb_forall. intros f Hf. destruct (AR f Hf) as [R|(_ & P)]; [exact R | congruence]. }
   split; [exact NP|]. split; [exact QB|].
-  assert (LBt : N.of_nat (length (tB s)) <= B.NMAX) by lia.
-  pose proof (BI.barrier_sched_no_lost_wakeup (tB s) p nb LBt) as L. rewrite <- HB in L. unfold B.lostb in L. rewrite QB in L. cbn in L. exact L.
+  assert (LBt : N.of_nat (length (tB s)) <= BarrierEvSched.NMAX) by lia.
+  pose proof (BarrierEvInv.barrier_sched_no_lost_wakeup (tB s) p nb LBt) as L. rewrite <- HB in L. unfold BarrierEvSched.lostb in L. rewrite QB in L. cbn in L. exact L.
 Qed.
 
 (* non-vacuity: a Barrier of 2; the first party takes the state mutex (fast path) and runs its critical section; before it
@@ -130,7 +126,7 @@ Definition bcomp_schedule : list yact :=
 Example bcomp_example :
   let mid := yrun 2 2 3 (firstn 11 bcomp_schedule) in
   let fin := yrun 2 2 3 bcomp_schedule in
-  (map B.fpc (B.g_futs (yB mid)) = [B.BParked; B.BArrive] /\ map M.fpc (M.g_futs (yM mid)) = [M.PDone; M.PParked; M.PIdle] /\ y_owe mid = 1) /\
-  (map B.fpc (B.g_futs (yB fin)) = [B.BDone; B.BDone] /\ map B.flead (B.g_futs (yB fin)) = [false; true] /\
-   y_hold fin = 0 /\ y_owe fin = 0 /\ M.g_w (yM fin) = 0 /\ M.quiescentb (yM fin) = true /\ B.quiescentb (yB fin) = true).
+  (map BarrierEvSched.fpc (BarrierEvSched.g_futs (yB mid)) = [BarrierEvSched.BParked; BarrierEvSched.BArrive] /\ map MutexEvSched.fpc (MutexEvSched.g_futs (yM mid)) = [MutexEvSched.PDone; MutexEvSched.PParked; MutexEvSched.PIdle] /\ y_owe mid = 1) /\
+  (map BarrierEvSched.fpc (BarrierEvSched.g_futs (yB fin)) = [BarrierEvSched.BDone; BarrierEvSched.BDone] /\ map BarrierEvSched.flead (BarrierEvSched.g_futs (yB fin)) = [false; true] /\
+   y_hold fin = 0 /\ y_owe fin = 0 /\ MutexEvSched.g_w (yM fin) = 0 /\ MutexEvSched.quiescentb (yM fin) = true /\ BarrierEvSched.quiescentb (yB fin) = true).
 Proof. vm_compute. repeat split. Qed.
